@@ -2,8 +2,10 @@ package main
 
 import (
 	"fmt"
+	"go/ast"
 	"go/constant"
 	"go/token"
+	"go/types"
 	"strings"
 
 	"golang.org/x/tools/go/ssa"
@@ -15,9 +17,11 @@ import (
 // fail (reported as undecided by the caller). No code of the analysed program is executed.
 
 type fval struct {
-	kind string // int | bool | nil | err | unknown
-	i    int64
-	b    bool
+	kind  string // int | bool | nil | err | unknown | slice | map
+	i     int64
+	b     bool
+	elems []fval           // slice
+	m     map[int64]fval   // map with integer (enum) keys
 }
 
 func (v fval) String() string {
@@ -33,6 +37,8 @@ func (v fval) String() string {
 type fsmEnv struct {
 	params map[string]fval // by parameter name
 	paths  map[string]fval // by access path (field loads)
+	prog   *Prog           // for package-level tables and module helpers (may be nil)
+	depth  int
 }
 
 func evalPure(fn *ssa.Function, env fsmEnv) ([]fval, error) {
@@ -62,6 +68,8 @@ func evalPure(fn *ssa.Function, env fsmEnv) ([]fval, error) {
 			return fval{kind: "unknown"}, nil
 		case *ssa.Global:
 			return fval{kind: "err"}, nil
+		case *ssa.Function:
+			return fval{kind: "unknown"}, nil
 		}
 		return fval{}, fmt.Errorf("value %s (%T) not computed", v.Name(), v)
 	}
@@ -114,8 +122,18 @@ func evalPure(fn *ssa.Function, env fsmEnv) ([]fval, error) {
 					p := pathOf(x)
 					if pv, ok := env.paths[p]; ok {
 						vals[x] = pv
-					} else if _, isG := x.X.(*ssa.Global); isG {
-						vals[x] = fval{kind: "err"}
+					} else if g, isG := x.X.(*ssa.Global); isG {
+						if gv, ok := globalTable(env.prog, g); ok {
+							vals[x] = gv
+						} else {
+							vals[x] = fval{kind: "err"}
+						}
+					} else if ia, isIA := x.X.(*ssa.IndexAddr); isIA {
+						ev, err := get(ia)
+						if err != nil {
+							return nil, err
+						}
+						vals[x] = ev
 					} else {
 						return nil, fmt.Errorf("load of %s has no value in the environment", p)
 					}
@@ -168,14 +186,108 @@ func evalPure(fn *ssa.Function, env fsmEnv) ([]fval, error) {
 				}
 				return out, nil
 			case *ssa.Call:
-				// error constructors produce a non-nil error; anything else is not pure enough
 				n := calleeName(x)
+				if b, isB := x.Common().Value.(*ssa.Builtin); isB && b.Name() == "len" {
+					a, err := get(x.Common().Args[0])
+					if err != nil {
+						return nil, err
+					}
+					if a.kind != "slice" && a.kind != "nil" {
+						return nil, fmt.Errorf("len of non-slice")
+					}
+					vals[x] = fval{kind: "int", i: int64(len(a.elems))}
+					break
+				}
+				// error constructors produce a non-nil error
 				if n == "fmt.Errorf" || n == "errors.New" || strings.HasSuffix(n, "dkg.InvalidStateChange") {
 					vals[x] = fval{kind: "err"}
-				} else {
-					return nil, fmt.Errorf("call to %s is not interpretable", n)
+					break
 				}
-			case *ssa.Alloc, *ssa.IndexAddr, *ssa.Store, *ssa.Slice:
+				// pure helpers of the analysed module are interpreted recursively
+				if f := x.Common().StaticCallee(); f != nil && f.Blocks != nil && inModule(fnPkgPath(f)) && env.depth < 4 {
+					sub := fsmEnv{params: map[string]fval{}, paths: env.paths, prog: env.prog, depth: env.depth + 1}
+					okArgs := true
+					for i, a := range x.Common().Args {
+						av, err := get(a)
+						if err != nil {
+							okArgs = false
+							break
+						}
+						if i < len(f.Params) {
+							sub.params[f.Params[i].Name()] = av
+						}
+					}
+					if okArgs {
+						res, err := evalPure(f, sub)
+						if err != nil {
+							return nil, fmt.Errorf("in %s: %w", fnShort(f), err)
+						}
+						if len(res) == 1 {
+							vals[x] = res[0]
+						} else {
+							vals[x] = fval{kind: "tuple", elems: res}
+						}
+						break
+					}
+				}
+				return nil, fmt.Errorf("call to %s is not interpretable", n)
+			case *ssa.IndexAddr:
+				base, err := get(x.X)
+				if err != nil {
+					// varargs array construction for messages: ignored
+					break
+				}
+				idx, err := get(x.Index)
+				if err != nil {
+					return nil, err
+				}
+				if base.kind == "slice" && idx.kind == "int" && idx.i >= 0 && int(idx.i) < len(base.elems) {
+					vals[x] = base.elems[idx.i]
+				}
+			case *ssa.Index:
+				base, err := get(x.X)
+				if err != nil {
+					return nil, err
+				}
+				idx, err := get(x.Index)
+				if err != nil {
+					return nil, err
+				}
+				if base.kind != "slice" || idx.kind != "int" || idx.i < 0 || int(idx.i) >= len(base.elems) {
+					return nil, fmt.Errorf("index out of interpretable range")
+				}
+				vals[x] = base.elems[idx.i]
+			case *ssa.Lookup:
+				base, err := get(x.X)
+				if err != nil {
+					return nil, err
+				}
+				idx, err := get(x.Index)
+				if err != nil {
+					return nil, err
+				}
+				if base.kind != "map" || idx.kind != "int" {
+					return nil, fmt.Errorf("lookup in a non-table value")
+				}
+				ev, found := base.m[idx.i]
+				if !found {
+					ev = fval{kind: "nil"}
+				}
+				if x.CommaOk {
+					vals[x] = fval{kind: "tuple", elems: []fval{ev, {kind: "bool", b: found}}}
+				} else {
+					vals[x] = ev
+				}
+			case *ssa.Extract:
+				t, err := get(x.Tuple)
+				if err != nil {
+					return nil, err
+				}
+				if t.kind != "tuple" || x.Index >= len(t.elems) {
+					return nil, fmt.Errorf("extract from non-tuple")
+				}
+				vals[x] = t.elems[x.Index]
+			case *ssa.Alloc, *ssa.Store, *ssa.Slice:
 				// varargs construction for error messages: ignored
 			default:
 				return nil, fmt.Errorf("unsupported instruction %T", in)
@@ -230,4 +342,87 @@ func evalBin(op token.Token, a, b fval) (fval, error) {
 		}
 	}
 	return fval{}, fmt.Errorf("unsupported binary op %s on %s,%s", op, a.kind, b.kind)
+}
+
+// globalTable statically evaluates a package-level table (slice / map literal of enum constants) from its declaration.
+func globalTable(p *Prog, g *ssa.Global) (fval, bool) {
+	if p == nil || g.Pkg == nil {
+		return fval{}, false
+	}
+	pk := p.ByPath[g.Pkg.Pkg.Path()]
+	if pk == nil {
+		return fval{}, false
+	}
+	for _, f := range pk.Syntax {
+		for _, d := range f.Decls {
+			gd, ok := d.(*ast.GenDecl)
+			if !ok || gd.Tok != token.VAR {
+				continue
+			}
+			for _, sp := range gd.Specs {
+				vs := sp.(*ast.ValueSpec)
+				for i, nm := range vs.Names {
+					if nm.Name == g.Name() && i < len(vs.Values) {
+						return evalTableExpr(pk.TypesInfo, vs.Values[i])
+					}
+				}
+			}
+		}
+	}
+	return fval{}, false
+}
+
+func evalTableExpr(info *types.Info, e ast.Expr) (fval, bool) {
+	if tv, ok := info.Types[e]; ok && tv.Value != nil {
+		switch tv.Value.Kind() {
+		case constant.Int:
+			i, _ := constant.Int64Val(tv.Value)
+			return fval{kind: "int", i: i}, true
+		case constant.Bool:
+			return fval{kind: "bool", b: constant.BoolVal(tv.Value)}, true
+		}
+		return fval{}, false
+	}
+	cl, ok := e.(*ast.CompositeLit)
+	if !ok {
+		return fval{}, false
+	}
+	t := info.TypeOf(cl)
+	if t == nil {
+		return fval{}, false
+	}
+	switch t.Underlying().(type) {
+	case *types.Slice, *types.Array:
+		out := fval{kind: "slice"}
+		for _, el := range cl.Elts {
+			if kv, isKV := el.(*ast.KeyValueExpr); isKV {
+				el = kv.Value
+			}
+			v, ok := evalTableExpr(info, el)
+			if !ok {
+				return fval{}, false
+			}
+			out.elems = append(out.elems, v)
+		}
+		return out, true
+	case *types.Map:
+		out := fval{kind: "map", m: map[int64]fval{}}
+		for _, el := range cl.Elts {
+			kv, isKV := el.(*ast.KeyValueExpr)
+			if !isKV {
+				return fval{}, false
+			}
+			k, ok := evalTableExpr(info, kv.Key)
+			if !ok || k.kind != "int" {
+				return fval{}, false
+			}
+			v, ok := evalTableExpr(info, kv.Value)
+			if !ok {
+				return fval{}, false
+			}
+			out.m[k.i] = v
+		}
+		return out, true
+	}
+	return fval{}, false
 }
